@@ -342,4 +342,34 @@ example : ∃ j : JobIn, JobOK j ∧ NoNl j ∧
    { fqname := by decide, shellName := by decide, stdout := by decide, stderr := by decide,
      workdir := by decide, account := by decide }, by decide⟩
 
+/-- Non-vacuity of the JOINT hypotheses of `jobScript_no_injection` (audit pass 2, LOW-4): for
+EVERY shipped template there is a job on that template's own text, with metacharacters in the
+command, an argument, an environment value and the paths, inside `JobOK` and `NoNl`. -/
+example : ∀ t ∈ Gen.jobTemplates, ∃ j : JobIn,
+    j.tmpl = templateTextK Gen.jobScriptKeys t.2 ∧ JobOK j ∧ NoNl j :=
+  fun t _ =>
+  ⟨{ tmpl := templateTextK Gen.jobScriptKeys t.2, fqname := [0x49, 0x44], shellName := [0x6D],
+     stdout := [0x2F, 0x60, 0x22], stderr := [0x2F, 0x5C], workdir := [0x2F, 0x20, 0x27],
+     threadEnvs := [[0x54]], envs := [([0x41], [0x24, 0x48])],
+     cmd := [0x2F, 0x24, 0x28, 0x69, 0x64, 0x29], argv := [[0x3B, 0x26]], threads := 1, memGB := 1,
+     vmemGB := 0, threadsPerJob := 1, memGBPerJob := 1, extraVmemGB := 0, memGBPerCore := 0,
+     alwaysVmem := false, account := [], special := [], mappings := [], resOpt := [] },
+   rfl,
+   { threadEnvs := show ∀ n ∈ [[(0x54 : UInt8)]], isName n = true by decide,
+     envs := show ∀ kv ∈ [(([0x41], [0x24, 0x48]) : Bytes × Bytes)],
+       isName kv.1 = true ∧ validUtf8 kv.2 = true ∧ (0 : UInt8) ∉ kv.2 by decide,
+     cmd := show validUtf8 [0x2F, 0x24, 0x28, 0x69, 0x64, 0x29] = true
+       ∧ (0 : UInt8) ∉ [0x2F, 0x24, 0x28, 0x69, 0x64, 0x29] by decide,
+     argv := show ∀ a ∈ [[(0x3B : UInt8), 0x26]], validUtf8 a = true ∧ (0 : UInt8) ∉ a by decide,
+     stdout := show validUtf8 [0x2F, 0x60, 0x22] = true ∧ (0 : UInt8) ∉ [0x2F, 0x60, 0x22] by decide,
+     stderr := show validUtf8 [0x2F, 0x5C] = true ∧ (0 : UInt8) ∉ [0x2F, 0x5C] by decide,
+     workdir := show validUtf8 [0x2F, 0x20, 0x27] = true ∧ (0 : UInt8) ∉ [0x2F, 0x20, 0x27] by decide,
+     res := Or.inl rfl },
+   { fqname := show (0x0A : UInt8) ∉ [0x49, 0x44] by decide,
+     shellName := show (0x0A : UInt8) ∉ [0x6D] by decide,
+     stdout := show (0x0A : UInt8) ∉ [0x2F, 0x60, 0x22] by decide,
+     stderr := show (0x0A : UInt8) ∉ [0x2F, 0x5C] by decide,
+     workdir := show (0x0A : UInt8) ∉ [0x2F, 0x20, 0x27] by decide,
+     account := show (0x0A : UInt8) ∉ ([] : List UInt8) by decide }⟩
+
 end Props.C18
